@@ -112,3 +112,27 @@ CHECKS["C18"] = dict(
     assumptions=["solution costs fed to the convergence condition are > 0",
                  "cost-convergence verdicts within 1e-12 relative of the (1 +- eps) thresholds are not judged"],
 )
+
+CHECKS["C06"] = dict(
+    src="harness/C06_metric.cpp",
+    cases=dict(quick=300000, thorough=5000000),
+    fuzz=dict(runs=3000000, maxlen=600),
+    rule="(filled below)",
+    technique="property-based testing of metric laws over generated spaces and adversarial state triples; libFuzzer in thorough",
+    level_text="Generated spaces (every shipped kind, wrappers, nested weighted compounds to depth 3) and jointly generated adversarial "
+               "triples are checked against the metric laws the space itself claims (hasSymmetricDistance, isMetricSpace) with the "
+               "tolerance policy of DESIGN.md section 3. Exploration-level.",
+    level_note="Trusted: the harness's typed traversal of state coordinates (separation test independent of the library's distance and "
+               "equality) and the stated numerical slacks (SO(3) grain 4.5e-5, Sphere float haversine, Dubins 1e-5 relative).",
+    assumptions=["states are constructed in bounds from the choice bytes (no library sampler involved)",
+                 "positivity is asserted only for pairs separated by >10x the leaf's numerical resolution and with positive effective weight",
+                 "compound-sum law applies to CompoundStateSpace::distance users (generic compounds, SE2, SE3), not to spaces overriding distance"],
+)
+CHECKS["C06"]["rule"] = (
+    "Case = generated space {R^n n<=8 with bounds classes unit/shifted/negative/huge/tiny/zero-width-dim, SO2, SO3, SE2, SE3, Time, Discrete, "
+    "Torus, Sphere(radius), Mobius, KleinBottle, Dubins(+symmetric), ReedsShepp, Wrapper(any), nested weighted Compound (<=4 components, "
+    "weights {1, 7.5, 1e-3, 0}, depth<=3)} x triple (a; b related to a; c related to a or b) with relation classes {independent, identical, "
+    "1-ulp adjacent, nearly coincident 1e-12..1e-4, antipodal / seam-crossing (-q, 180 deg, angles on both sides of +-pi), one leaf differs}. "
+    "Oracle: finite, >=0, d(s,s)=0, positivity for separated unequal states, <= getMaximumExtent(), symmetry if claimed, triangle if "
+    "isMetricSpace(), weighted-sum law at every compound node. Non-trivial = at least one of the two relations is not 'independent'; "
+    "distinct = consumed byte prefix.")
